@@ -115,6 +115,7 @@ def hq_scenarios(ctx, scen):
             got = json.loads(res)
         except Exception:
             ctx.violation("HQ scenario crashed: " + res[:300], {"domain": "queue", "scenario": sc}); continue
+        got["adds"], got["dels"] = got.get("adds") or [], got.get("dels") or []      # Go marshals an empty list as null
         want_adds = sorted("%s|%s|%s" % (o[0], o[1], "L" * o[2]) for o in sc["outlinks"])
         want_dels = sorted(sc["finished"])
         if got["adds"] != want_adds:
